@@ -38,7 +38,7 @@ def run(ctx):
                  "and it contains >= 1 successful write access / dirty mark or a relocation by removal",
             samples=s["samples"], trusted_base=vc.TRUSTED_BASE,
             op_histogram=s["hist"], batches=s["per_batch"],
-            exhaustive="all %d-op sequences over a 12-op alphabet after a fixed prefix (chunk size 2, populations 3 and 2)"
+            exhaustive="all %d-op sequences over a 14-op alphabet after a fixed prefix (chunk size 2, populations 3 and 2)"
                        % (4 if ctx.thorough else 3),
             job_runs=st.get("runs", 0), runs_with_work=st.get("runs_work", 0), runs_without_work=st.get("runs_empty", 0),
             runs_where_quiescence_was_demanded=st.get("runs_quiescent_checked", 0),
@@ -49,6 +49,13 @@ def run(ctx):
             archetypes_created=st.get("arch_created", 0), rejected_configurations=st.get("rejections", 0),
             chunk_sizes_seen=st.get("cs_seen", {}), relocations_by_removal=st.get("relocations", 0),
             histories_showing_known_finding_check_outside_archetype=s["known_outside_histories"],
+            runs_whose_body_modified_the_world=st.get("body_runs", 0),
+            body_immediate_writes=st.get("body_immediate_writes", 0),
+            body_deferred_structural_changes=st.get("body_deferred_changes", 0),
+            runs_of_jobs_with_chunk_filter=st.get("runs_with_chunk_filter", 0),
+            vetoed_chunks_skipped=st.get("vetoed_chunks_skipped", 0),
+            runs_of_jobs_with_archetype_filter=st.get("runs_with_archetype_filter", 0),
+            archetypes_closed_by_dependency=st.get("archetypes_closed_by_dependency", 0),
             tie_divergences=s["tie_breaks"], searched_after_divergence=s["searched"])
     ctx.assume("open known finding key=check-outside-archetype: a job with a non-empty check mask none of whose "
                "components the matched archetype has is never quiescent there (corpus/C11/corner-check-outside-required.ops "
